@@ -25,3 +25,11 @@ class CsrfFailureException(Exception):
     Exception that is thrown when cross-site verification fails
     """
     pass
+
+
+class ManifestNotAvailable(Exception):
+    """
+    Exception that is thrown when the database does not (yet) hold
+    everything that is needed to describe a stream in a manifest
+    """
+    pass
